@@ -212,6 +212,8 @@ def bind():
     bpool.sys = _SysProxy()
     bcommon.sys = bpool.sys
     bcommon._should_have_exited = _ExitedCell()
+    if hasattr(bpool, '_should_have_exited'):
+        bpool._should_have_exited = bcommon._should_have_exited
     bdummy.DummyProcess.start = _dp_start
     bdummy.DummyProcess.join = _dp_join
     bdummy.DummyProcess.is_alive = _dp_is_alive
